@@ -20,6 +20,9 @@ CHECKS = {
  "C10": ("2/C10", TECH + ": all collections up to a length bound over an 8-item alphabet x criteria x all positions n; all ordered collection pairs for the set functions",
          "every collection of the alphabet up to the bound is pushed through where/select/exists/all/take/skip/indexer/distinct and every ordered pair through exclude/intersect on the real code; results compared by pointer identity with a slice reference model and with the equations of the statement",
          "reference equality partition of the alphabet is hand-written; collections longer than the bound and other item types only via the path-derived sub-space"),
+ "C11": ("2/C11", TECH + ": all expression trees up to an operator-count bound over every operator token of the 13 precedence levels; two renderings, all token-gap decorations, all trailing tokens",
+         "every tree within the bound is rendered minimally and fully parenthesised and compiled by the real parser; the two compiled expression trees must be identical (reflective AST dump) and evaluate identically; every gap decoration and trailing token of every tree with <=2 operators is compiled as well",
+         "the harness's precedence table is trusted; trees with more operator nodes than the bound are not covered"),
  "C13": ("2/C13", TECH + ": items (value pool + string grammar) x 8 targets x {toT, convertsToT} with relational laws",
          "complete enumeration of the item pool and the string grammar against the laws of the statement and a hand-written conversion table",
          "conversion table and per-string validity parsers are hand-written in the harness"),
